@@ -69,39 +69,46 @@ pub fn run_batch<F: Fn(usize) -> IoPlan + Sync>(n: usize, workers: usize, deadli
                     if stop.load(Ordering::Relaxed) {
                         break;
                     }
-                    let i = next.fetch_add(1, Ordering::Relaxed);
-                    if i >= n {
+                    // a chunk of CHUNK consecutive plan indices is one unit of work, executed in order
+                    // on one brand-new OS thread: per-thread state a tree may keep lives at most as long
+                    // as the chunk, and which plans share a thread is a function of the indices alone
+                    let c = next.fetch_add(1, Ordering::Relaxed);
+                    let lo = c * CHUNK;
+                    if lo >= n {
                         break;
                     }
-                    if i % 64 == 0 {
-                        if let Some(d) = deadline {
-                            if Instant::now() >= d {
-                                stop.store(true, Ordering::Relaxed);
-                                // this index was claimed: still run it so the prefix stays contiguous
+                    let hi = (lo + CHUNK).min(n);
+                    if let Some(d) = deadline {
+                        if Instant::now() >= d {
+                            stop.store(true, Ordering::Relaxed);
+                            // this chunk was claimed: still run it so the prefix stays contiguous
+                        }
+                    }
+                    let plans: Vec<IoPlan> = (lo..hi).map(|i| plan_of(i)).collect();
+                    let results = execute_chunk(&plans);
+                    for (k, r) in results.into_iter().enumerate() {
+                        let i = lo + k;
+                        let plan = &plans[k];
+                        local.digests.push((i, r.digest));
+                        local.steps += r.steps as u64;
+                        local.faults += r.faults_fired as u64;
+                        local.counters.merge(&r.counters);
+                        local.strata.inc(&plan.stratum);
+                        let h = hash_bytes(plan.to_json().to_string().as_bytes());
+                        local.all.push(h);
+                        if r.faults_fired > 0 {
+                            local.nontrivial.push(h);
+                        }
+                        if let Some(v) = r.violation {
+                            if known.iter().any(|k| *k == v.class()) {
+                                // a listed known finding: counted, reported by the driver, not a new violation
+                                local.counters.inc(&format!("known_finding_hit|{}", v.class()));
+                                continue;
                             }
-                        }
-                    }
-                    let plan = plan_of(i);
-                    let r = execute(&plan, false);
-                    local.digests.push((i, r.digest));
-                    local.steps += r.steps as u64;
-                    local.faults += r.faults_fired as u64;
-                    local.counters.merge(&r.counters);
-                    local.strata.inc(&plan.stratum);
-                    let h = hash_bytes(plan.to_json().to_string().as_bytes());
-                    local.all.push(h);
-                    if r.faults_fired > 0 {
-                        local.nontrivial.push(h);
-                    }
-                    if let Some(v) = r.violation {
-                        if known.iter().any(|k| *k == v.class()) {
-                            // a listed known finding: counted, reported by the driver, not a new violation
-                            local.counters.inc(&format!("known_finding_hit|{}", v.class()));
-                            continue;
-                        }
-                        local.violations += 1;
-                        if local.first.as_ref().map(|f| i < f.0).unwrap_or(true) {
-                            local.first = Some((i, plan, v));
+                            local.violations += 1;
+                            if local.first.as_ref().map(|f| i < f.0).unwrap_or(true) {
+                                local.first = Some((i, plan.clone(), v));
+                            }
                         }
                     }
                 }
@@ -143,6 +150,33 @@ pub fn run_batch<F: Fn(usize) -> IoPlan + Sync>(n: usize, workers: usize, deadli
     }
 }
 
+pub const CHUNK: usize = 32;
+
+/// execute the plans one after the other on one brand-new OS thread
+pub fn execute_chunk(plans: &[IoPlan]) -> Vec<RunResult> {
+    std::thread::scope(|s| {
+        std::thread::Builder::new()
+            .stack_size(1024 * 1024)
+            .spawn_scoped(s, || plans.iter().map(|p| execute(p, false)).collect::<Vec<_>>())
+            .map(|h| h.join())
+    })
+    .ok()
+    .and_then(|r| r.ok())
+    .unwrap_or_else(|| plans.iter().map(|p| execute(p, false)).collect())
+}
+
+pub fn execute_isolated(plan: &IoPlan, want_log: bool) -> RunResult {
+    std::thread::scope(|s| {
+        std::thread::Builder::new()
+            .stack_size(512 * 1024)
+            .spawn_scoped(s, || execute(plan, want_log))
+            .map(|h| h.join())
+    })
+    .ok()
+    .and_then(|r| r.ok())
+    .unwrap_or_else(|| execute(plan, want_log))
+}
+
 pub fn fold_digests(d: &[u64]) -> u64 {
     let mut dg = crate::util::Digest::new();
     for x in d {
@@ -160,7 +194,7 @@ pub fn count_distinct(mut v: Vec<u64>) -> usize {
 // ---------------------------------------------------------------- minimiser
 
 fn fails_same(plan: &IoPlan, class: &str) -> Option<Violation> {
-    let r = execute(plan, false);
+    let r = execute_isolated(plan, false);
     match r.violation {
         Some(v) if v.class() == class => Some(v),
         _ => None,
@@ -329,7 +363,44 @@ pub fn replay_file(path: &str) -> Result<(Option<Violation>, String, Vec<String>
             .replace(' ', "_")
         })
         .unwrap_or_default();
-    let r = execute(&plan, true);
+    // optional prelude: the violation depended on process-global state left behind by earlier plans of
+    // the batch; re-execute the batch prefix sequentially (one worker) before the plan
+    if let Some(pre) = j.get("prelude") {
+        // the violation depended on library state left behind by earlier plans: re-execute the plans
+        // `from..upto` of the batch exactly as the batch did (chunks of CHUNK consecutive indices, each
+        // on its own fresh thread, in order), the last chunk ending with the plan of the violation
+        let source = pre.get("source").and_then(|x| x.as_str()).unwrap_or("");
+        let from = pre.get("from").and_then(|x| x.as_usize()).unwrap_or(0);
+        let upto = pre.get("upto").and_then(|x| x.as_usize()).unwrap_or(0);
+        let seed = j.get("seed").and_then(|x| x.as_i64()).unwrap_or(1) as u64;
+        let sweep_plans = if source == "sweep" { crate::io_gen::sweep(pre.get("values_per_type").and_then(|x| x.as_usize()).unwrap_or(3)).0 } else { vec![] };
+        let get = |i: usize| if source == "sweep" { sweep_plans[i].clone() } else { seeded_plan(seed, i) };
+        let mut last: Option<RunResult> = None;
+        let mut lo = (from / CHUNK) * CHUNK;
+        while lo <= upto {
+            let hi = (lo + CHUNK).min(upto + 1);
+            let plans: Vec<IoPlan> = (lo.max(from)..hi).map(|i| get(i)).collect();
+            let mut rs = execute_chunk(&plans);
+            if hi == upto + 1 {
+                last = rs.pop();
+            }
+            lo += CHUNK;
+        }
+        if let Some(r) = last {
+            // accept the same invariant on any record kind: the batch state, not the minimised plan, is replayed
+            let inv = want.split('|').next().unwrap_or("").to_string();
+            let v = r.violation.map(|mut v| {
+                if v.class().split('|').next() == Some(inv.as_str()) {
+                    v.invariant = v.invariant.clone();
+                }
+                v
+            });
+            let same_inv = v.as_ref().map(|v| v.class().split('|').next().map(|s| s.to_string()) == Some(inv.clone())).unwrap_or(false);
+            let want2 = if same_inv { v.as_ref().map(|v| v.class()).unwrap_or_default() } else { want };
+            return Ok((v, want2, vec![format!("(replayed plans {}..={} of the {} batch as the batch ran them)", from, upto, source)]));
+        }
+    }
+    let r = execute_isolated(&plan, true);
     Ok((r.violation, want, r.log))
 }
 
